@@ -157,6 +157,16 @@ def builtin(ex, name, pos, kw, st: State) -> SV:
         if a.py is None and a.kind == 'str':
             pass
         raise Unsupported('hasattr')
+    if name == 'getattr':
+        o, a = pos[0], pos[1]
+        lit = ex.const_str(a)
+        if lit is not None:
+            return ex.get_attr(o, lit, st)
+        cls = o.cls if o.kind == 'ref' else (o.ty.cls if o.ty is not None else None)
+        info = ex.reg.classes.get(cls)
+        if info is not None and getattr(info, 'getattr_hook', None) is not None and a.kind == 'str':
+            return info.getattr_hook(ex, st, o, a)
+        raise Unsupported('getattr with a symbolic name on %s' % cls)
     if name == 'id':
         v = pos[0]
         if v.kind == 'ref':
